@@ -725,7 +725,7 @@ func (n *RegexNode) makeLoopAtomic() {
 			// If this is now a One repeater with a small enough length,
 			// make it a Multi instead, as they're better optimized down the line.
 			n.T = NtMulti
-			n.Str = []rune(strings.Repeat(string(n.Ch), n.N))
+			n.Str = repeatRune(n.Ch, n.N)
 			n.Ch = 0x0
 			n.M = 0
 			n.N = 0
@@ -737,6 +737,19 @@ func (n *RegexNode) makeLoopAtomic() {
 // The correctness of this optimization depends on nothing being able to backtrack into
 // the provided node.  That means it must be at the root of the overall expression, or
 // it must be an Atomic node that nothing will backtrack into by the very nature of Atomic.
+// repeatRune returns count copies of ch. (Not by way of a string: string(ch)
+// is U+FFFD for a surrogate, and \x{D800}{2} names two surrogates.)
+func repeatRune(ch rune, count int) []rune {
+	if count <= 0 {
+		return []rune{}
+	}
+	out := make([]rune, count)
+	for i := range out {
+		out[i] = ch
+	}
+	return out
+}
+
 func (n *RegexNode) eliminateEndingBacktracking() {
 	// Walk the tree starting from the current node.
 	node := n
@@ -1856,7 +1869,7 @@ func (n *RegexNode) makeQuantifier(lazy bool, min, max int) *RegexNode {
 		// processing. The counts used here in real-world expressions are invariably small (e.g. 4),
 		// but we set an upper bound just to avoid creating really large strings.
 		n.T = NtMulti
-		n.Str = []rune(strings.Repeat(string(n.Ch), max))
+		n.Str = repeatRune(n.Ch, max)
 		n.Ch = 0
 		return n
 	}
